@@ -11,6 +11,14 @@ filters of every kind.  Arguments are random values built by reflection; what th
 implementation received / produced / the caller got back are canonical strings that TLC compares (so equality
 is decided by the specification's invariants); one-way calls, failures with tars.Error codes and plain errors,
 random request/response context and status maps.  One child process per filter configuration.
+Every child process makes three kinds of runs: a *staged* run (no filter registered, calls, a group of registrations,
+calls, ... until the configuration is complete: Reg events; the model's FilterOrder is about the filters registered when
+the call was made), a *serial* run (one call at a time through every generated entry point -- Fn, FnWithContext,
+FnOneWayWithContext -- with 0, 1 or 2 option maps), a short *large* run (8 concurrent calls whose requests and/or
+replies carry a string or byte vector of 4-64 KiB: longer than the transports' read buffers) and the concurrent runs
+with everything registered.  Events are
+attributed to calls through the key vcall looked for in the context *and* in the status map (a call whose maps arrive
+exchanged must show up as that call's ImplSeesCaller violation); an event that cannot be attributed is rejected by TLC.
 """
 import json
 import os
@@ -26,30 +34,76 @@ CONFIGS = [("none", "none", 0, 0), ("legacy", "legacy", 1, 1), ("mw", "mw", 2, 2
            ("none", "none", 0, 0)]   # the last one is the many-callers run: 32 callers, many short rounds
 
 
-def split(path):
+def split(path, kinds=None):
     traces, cur = [], []
     for line in open(path):
         e = json.loads(line)
         if e["e"] == "Reset":
             traces.append(cur)
+            if kinds is not None:
+                kinds.append(e.get("kind", ""))
             cur = []
         else:
             cur.append(e)
     return traces
 
 
+def _in_order(seq):
+    """filter events of one call on one side so far: 1..a on the way in, then a'..1 (exit) or 1..b (post)"""
+    ins = [i for ph, i in seq if ph in ("enter", "pre")]
+    outs = [(ph, i) for ph, i in seq if ph in ("exit", "post")]
+    if ins != list(range(1, len(ins) + 1)) or [x for x in seq if x[0] in ("exit", "post")] != seq[len(ins):]:
+        return False
+    o = [i for _, i in outs]
+    if outs and outs[0][0] == "post":
+        return o == list(range(1, len(o) + 1))
+    return all(o[k] - 1 == o[k + 1] for k in range(len(o) - 1))
+
+
+def culprit(t, f):
+    """Which event names the failure (for the signature only; the verdict is TLC's).  A rejected trace stops in front of
+    the event that is not a step.  A violated invariant holds in the state *after* the last consumed event (the one before
+    the stop) or after a silent step taken for the call of the event at the stop (a call that moved on past filters it
+    should have shown: FilterOrder)."""
+    off = f["offset"]
+    cur = f["event"]
+    inv = (f["invariant"] or [None])[0]
+    prev = t[off - 1] if 0 < off <= len(t) else None
+    if inv is None or prev is None:
+        return cur
+    want = {"ImplSeesCaller": ("Impl",), "CallerSeesImpl": ("CallEnd",), "ExactlyOnce": ("Impl",), "WrittenOK": ("Written",),
+            "TypeOK": ("CF", "SF")}.get(inv)
+    if want:
+        return prev if prev["e"] in want else cur
+    if inv == "FilterOrder" and prev["e"] in ("CF", "SF"):
+        seq = [(e["ph"], e["i"]) for e in t[:off] if e["e"] == prev["e"] and e.get("c") == prev.get("c")]
+        if not _in_order(seq) or prev.get("c") == cur.get("c"):
+            return prev
+    return cur
+
+
 def run(ctx):
     ctx.level = "model_checking"
     ctx.assumptions = [
         "values cross the harness/TLC boundary as canonical JSON strings (byte-level scalars, sorted maps); nil and empty containers are identified; out parameters are fresh variables",
-        "a call is attributed to its events through the key vcall in the request context; pass-through = a legacy filter/middleware calls next exactly once and returns its result, a pre/post filter returns nil",
+        "a call is attributed to its events through the key vcall in the request context (looked for in the status map as well; calls without option maps are made one at a time); filters are registered only while no call is under way; pass-through = a legacy filter/middleware calls next exactly once and returns its result, a pre/post filter returns nil",
         "the reply-written hook may be recorded after the caller already has the reply: it is counted, not ordered",
     ]
     tm = open(os.path.join(VERIF, "spec", SPEC, "MC.cfg.tmpl")).read()
     ex = ThreadPoolExecutor(max_workers=4)
-    mcf = {(cm, sm): ex.submit(tlc.run, ctx, SPEC, "CallPipeline", cfg="mc.cfg", workers=2, timeout=900, name="mc-%s-%s" % (cm, sm),
-                               extra_files={"mc.cfg": tm.replace("@CM@", cm).replace("@SM@", sm)})
-           for cm, sm in ctx.pick([("mw", "prepost"), ("legacy", "mw")], [("mw", "prepost"), ("legacy", "mw"), ("prepost", "legacy"), ("none", "none")])}
+    # SpecFull: everything registered before the first call (two values); Spec: registrations between the calls (one value)
+    full = [(cm, sm, 2, 2, "SpecFull", '{"a", "b"}') for cm, sm in
+            ctx.pick([("mw", "prepost"), ("legacy", "mw")], [("mw", "prepost"), ("legacy", "mw"), ("prepost", "legacy"), ("none", "none")])]
+    stagedmc = [(cm, sm, nc, ns, "Spec", '{"a"}') for cm, sm, nc, ns in
+                ctx.pick([("mw", "prepost", 1, 1), ("mw", "none", 2, 1)],
+                         [("mw", "prepost", 1, 1), ("legacy", "mw", 1, 2), ("prepost", "mw", 1, 2), ("mw", "none", 2, 1), ("prepost", "legacy", 2, 1)])]
+
+    def mccfg(cm, sm, nc, ns, spec, vals):
+        return (tm.replace("@CM@", cm).replace("@SM@", sm).replace("@NC@", str(nc)).replace("@NS@", str(ns))
+                .replace("@SPEC@", spec).replace("@VALS@", vals))
+    mcf = {"%s/%s %d/%d %s" % k[:5]: ex.submit(tlc.run, ctx, SPEC, "CallPipeline", cfg="mc.cfg", workers=2, timeout=900,
+                                                name="mc-%s-%s-%s" % (k[0], k[1], k[4]), extra_files={"mc.cfg": mccfg(*k)})
+           for k in full + stagedmc}
     h, schema = codecgen.stage(ctx, idl_files=[os.path.join(VERIF, "idl", "Call.tars")], with_res=False)
     exe = gobuild.build(ctx, "calldrive")
     rounds = ctx.pick(4, 40)
@@ -75,20 +129,27 @@ def run(ctx):
         cm, sm, nc, ns = CONFIGS[i]
         return tcfg.replace("@CM@", cm).replace("@SM@", sm).replace("@NC@", str(max(nc, 1))).replace("@NS@", str(max(ns, 1)))
 
+    tkinds = {}
+
     def val(item):
         i, out, calls, written = item
-        traces = split(out)
+        tkinds[i] = []
+        traces = split(out, tkinds[i])
         return i, traces, tracecheck.validate(ctx, SPEC, "Trace_CallPipeline", cfg_for(i), traces, name="trace-%d" % i, timeout=900)
 
-    states = trans = ntr = ncalls = 0
+    states = trans = ntr = ncalls = nreg = 0
     kinds = {}
+    bykind = {}
     with ThreadPoolExecutor(max_workers=8) as exv:
         for i, traces, (acc, fails, st) in exv.map(val, outs):
             cm, sm, nc, ns = CONFIGS[i]
             states += st["states"]
             trans += st["transitions"]
             ntr += len(traces)
-            for t in traces:
+            for t, tk in zip(traces, tkinds[i]):
+                bykind[tk or "concurrent"] = bykind.get(tk or "concurrent", 0) + 1
+                if tk == "staged":
+                    nreg += sum(1 for e in t if e["e"] == "Reg")
                 for e in t:
                     if e["e"] == "CallStart":
                         ncalls += 1
@@ -96,23 +157,35 @@ def run(ctx):
                         kinds[k] = kinds.get(k, 0) + 1
             for f in fails:
                 t = traces[f["index"]]
-                ev = f["event"]
-                fn = next((e["fn"] for e in t if e["e"] == "CallStart" and e["c"] == ev.get("c")), "?")
+                ev = culprit(t, f)
+                fn = next((e["fn"] + ("/oneway" if e["oneway"] else "") for e in t if e["e"] == "CallStart" and e["c"] == ev.get("c")), "?")
+                tk = tkinds[i][f["index"]]
+                run = {"staged": "registered-in-stages:", "serial": "serial-entry-points:", "large": "large-values:"}.get(tk, "")
                 if f["invariant"]:
-                    sig = "C01:%s:%s/%s:%s" % (f["invariant"][0], cm, sm, fn)
-                    what = "%s violated for a call of %s with client filters %s, server filters %s" % (f["invariant"][0], fn, cm, sm)
+                    sig = "C01:%s:%s/%s:%s%s" % (f["invariant"][0], cm, sm, run, fn)
+                    what = "%s violated for a call of %s with client filters %s, server filters %s%s" % (
+                        f["invariant"][0], fn, cm, sm, {"staged": " (filters registered in stages, between the calls)",
+                                                        "serial": " (serial calls through every generated entry point with 0-2 option maps)",
+                                                        "large": " (strings / byte vectors of 4-64 KiB in requests and replies)"}.get(tk, ""))
+                elif "c" in ev and not (isinstance(ev["c"], int) and 1 <= ev["c"] <= 48):
+                    sig = "C01:unattributed:%s:%s/%s" % (ev.get("e"), cm, sm)
+                    what = "an event %s carries no call id: neither the request context nor the request status holds the caller's key (filters %s/%s): %s" % (
+                        ev.get("e"), cm, sm, json.dumps(ev)[:300])
                 else:
-                    sig = "C01:trace-rejected:%s:%s/%s" % (ev.get("e"), cm, sm)
+                    sig = "C01:trace-rejected:%s:%s%s/%s" % (ev.get("e"), run, cm, sm)
                     what = "run is not a behaviour of CallPipeline at event %s (filters %s/%s)" % (json.dumps(ev)[:200], cm, sm)
                 calls_ev = [e for e in t if e.get("c") == ev.get("c")]
                 ctx.violate(sig, what, {"config": CONFIGS[i], "events_of_call": calls_ev, "offset": f["offset"]})
     # binding self-test: corrupted observations are rejected
     i0, out0, _, _ = outs[2]   # the middleware/middleware configuration
-    base = split(out0)[0]
+    k0 = []
+    tr0 = split(out0, k0)
+    base = tr0[k0.index("")]              # a concurrent run, everything registered
+    stagedt = tr0[k0.index("staged")]
     selftest = {}
 
-    def variant(name, f):
-        t = [dict(e) for e in base]
+    def variant(name, f, src=None, want=None):
+        t = [dict(e) for e in (src or base)]
         if not f(t):
             selftest[name] = "no candidate"
             return
@@ -120,6 +193,8 @@ def run(ctx):
         selftest[name] = "rejected" if fails else "ACCEPTED"
         if not fails:
             raise Inconclusive("binding self-test failed: %s accepted" % name)
+        if want and fails[0]["invariant"][:1] != [want]:
+            raise Inconclusive("binding self-test failed: %s rejected, but not by %s (%r)" % (name, want, fails[0]["invariant"]))
 
     def m_ret(t):
         for e in t:
@@ -153,13 +228,48 @@ def run(ctx):
                 t.insert(len(t), {"e": "Written", "c": e["c"]})
                 return True
 
-    for name, f in (("return-value-altered", m_ret), ("received-args-altered", m_got), ("implementation-invoked-twice", m_twice),
-                    ("server-filters-out-of-order", m_order), ("reply-to-oneway", m_oneway_reply)):
-        variant(name, f)
+    def later_skipped(side):
+        # what a chain frozen at its first use looks like: the filter registered last never sees the calls made afterwards
+        def f(t):
+            regs = [k for k, e in enumerate(t) if e["e"] == "Reg" and e["side"] == side[0].lower()]
+            if len(regs) < 2:
+                return False
+            top = t[regs[-1]]["nin"]
+            n0 = len(t)
+            t[:] = [e for k, e in enumerate(t) if not (k > regs[-1] and e["e"] == side and e["i"] == top)]
+            return len(t) < n0
+        return f
+
+    def m_swapped(t):
+        # context and status exchanged on the way to the implementation
+        for e in t:
+            if e["e"] == "Impl":
+                g = json.loads(e["got"])
+                if g["ctx"] != g["status"]:
+                    g["ctx"], g["status"] = g["status"], g["ctx"]
+                    e["got"] = json.dumps(g, sort_keys=True, separators=(",", ":"))
+                    return True
+
+    def m_unattributed(t):
+        for e in t:
+            if e["e"] == "Impl":
+                e["c"] = 0
+                return True
+
+    variants = [("client-filter-registered-later-sees-nothing", later_skipped("CF"), stagedt, "FilterOrder"),
+                ("server-filter-registered-later-sees-nothing", later_skipped("SF"), stagedt, "FilterOrder"),
+                ("context-and-status-exchanged", m_swapped, None, "ImplSeesCaller"),
+                ("event-without-call-id", m_unattributed, None, None),
+                ("return-value-altered", m_ret, None, "CallerSeesImpl"), ("received-args-altered", m_got, None, "ImplSeesCaller"),
+                ("implementation-invoked-twice", m_twice, None, None), ("server-filters-out-of-order", m_order, None, "FilterOrder"),
+                ("reply-to-oneway", m_oneway_reply, None, "WrittenOK")]
+    with ThreadPoolExecutor(max_workers=5) as exs:
+        for fu in [exs.submit(variant, *v) for v in variants]:
+            fu.result()
     mc = {}
     for k, f in mcf.items():
-        r = tlc.require_clean(f.result(), "CallPipeline MC %s/%s" % k)
-        mc["%s/%s" % k] = {"distinct": r.distinct, "generated": r.generated}
+        r = tlc.require_clean(f.result(), "CallPipeline MC %s" % k)
+        mc[k] = {"distinct": r.distinct, "generated": r.generated}
     ex.shutdown()
     ctx.coverage = {
         "states": sum(v["distinct"] for v in mc.values()) + states,
@@ -168,8 +278,9 @@ def run(ctx):
         "samples": [[{k: (v if not isinstance(v, str) or len(v) < 300 else v[:300] + "...") for k, v in e.items()} for e in base[:12]]],
         "evaluations": ncalls, "distinct_nontrivial": ncalls,
         "rule": "each call has random arguments (reflection over the generated parameter types), random context/status maps and a "
-                "unique id; distinct = calls (argument values differ with overwhelming probability); %d filter configurations x %d rounds x 44 calls"
-                % (len(CONFIGS), rounds),
+                "unique id; distinct = calls (argument values differ with overwhelming probability); %d filter configurations x (%d concurrent rounds "
+                "+ 1 staged-registration round + 1 serial round) x <= 44 calls + 1 round of 8 calls with large values" % (len(CONFIGS), rounds),
+        "runs_by_kind": bykind, "registration_events_in_staged_runs": nreg,
         "calls_by_function": kinds, "filter_configurations": ["%s/%s nc=%d ns=%d" % c for c in CONFIGS],
         "model_checking": mc, "selftest_corrupted_traces": selftest, "exhaustive": False,
     }
